@@ -4,6 +4,7 @@ import (
 	"context"
 	"fmt"
 	"io"
+	"math"
 	"os"
 	"path/filepath"
 	"runtime/debug"
@@ -408,6 +409,11 @@ type teQuery struct {
 	Limit    int      `json:"limit"`
 	Offset   int      `json:"offset"`
 	Vec      bool     `json:"vec,omitempty"` // answer through the engine's columnar pipeline
+	// Tight: a query by trace id asks for exactly the time span of the stored spans of the requested traces (resolved at run time)
+	// instead of the whole history: parts that hold nothing of it may lie before and after the range, in any introduction order
+	Tight    bool `json:"tight,omitempty"`
+	ranged   bool
+	from, to int64 // ms offsets, to exclusive
 }
 
 func (q teQuery) request() *tracev1.QueryRequest {
@@ -416,6 +422,9 @@ func (q teQuery) request() *tracev1.QueryRequest {
 		TimeRange: &modelv1.TimeRange{Begin: timestamppb.New(time.Unix(0, teTS(0))), End: timestamppb.New(time.Unix(0, teTS(3*3600*1000)))},
 		Offset:    uint32(q.Offset), Limit: uint32(q.Limit),
 		TagProjection: []string{"trace_id", "span_id", "service_id", "duration", "state", "labels"},
+	}
+	if q.ranged {
+		req.TimeRange = &modelv1.TimeRange{Begin: timestamppb.New(time.Unix(0, teTS(q.from))), End: timestamppb.New(time.Unix(0, teTS(q.to)))}
 	}
 	if q.Order == "duration" {
 		srt := modelv1.Sort_SORT_ASC
@@ -559,6 +568,8 @@ type teStats struct {
 	allWide            bool
 	raced, raceBlocked bool
 	cut                bool
+	tight              bool
+	pruned             bool // a part selection by time bounds left out a part that matches by trace id
 }
 
 func runTraceEngine(x *verifkit.Ctx, c teCase) (teStats, error) {
@@ -642,6 +653,68 @@ func runTraceEngine(x *verifkit.Ctx, c teCase) (teStats, error) {
 			}
 		case "racequery", "query":
 			q := *op.Query
+			if q.Tight && q.Order == "" {
+				first := true
+				note := func(id string) {
+					for _, sp := range written[id] {
+						if first || sp.T < q.from {
+							q.from = sp.T
+						}
+						if first || sp.T+1 > q.to {
+							q.to = sp.T + 1
+						}
+						first = false
+					}
+				}
+				for _, tr := range q.Traces {
+					note(teTraceID(tr))
+				}
+				for _, id := range q.WideIDs {
+					note(id)
+				}
+				q.ranged = !first
+				st.tight = st.tight || q.ranged
+				if q.ranged {
+					// part selection by time bounds and trace-id filter (snapshot.getParts, the selection of the native per-trace read path):
+					// what it selects for the range must be what it selects for all time, restricted to the parts whose bounds overlap the range
+					var ids []string
+					for _, tr := range q.Traces {
+						ids = append(ids, teTraceID(tr))
+					}
+					ids = append(ids, q.WideIDs...)
+					lo, hi := teTS(q.from), teTS(q.to)-1
+					for _, tb := range e.tablesCopy() {
+						snp := tb.tst.currentSnapshot()
+						if snp == nil {
+							continue
+						}
+						got, _ := snp.getParts(nil, lo, hi, ids)
+						all, _ := snp.getParts(nil, math.MinInt64, math.MaxInt64, ids)
+						sel := map[uint64]bool{}
+						for _, p := range got {
+							sel[p.partMetadata.ID] = true
+						}
+						var perr error
+						for _, p := range all {
+							overlaps := !(hi < p.partMetadata.MinTimestamp || lo > p.partMetadata.MaxTimestamp)
+							if overlaps && !sel[p.partMetadata.ID] {
+								perr = fmt.Errorf("%s: part selection for traces %v in [%d,%d] leaves out part %d with time bounds [%d,%d], which it selects for the same traces over all time (%d of %d parts selected; parts are kept in introduction order, not in time order)",
+									what, ids, lo, hi, p.partMetadata.ID, p.partMetadata.MinTimestamp, p.partMetadata.MaxTimestamp, len(got), len(all))
+							}
+							if !overlaps && sel[p.partMetadata.ID] {
+								perr = fmt.Errorf("%s: part selection for [%d,%d] includes part %d with bounds [%d,%d]", what, lo, hi, p.partMetadata.ID, p.partMetadata.MinTimestamp, p.partMetadata.MaxTimestamp)
+							}
+						}
+						snp.decRef()
+						if perr != nil {
+							return st, perr
+						}
+						if len(all) >= 2 && len(got) < len(all) {
+							st.pruned = true
+						}
+					}
+				}
+			}
 			var res []teOutTrace
 			var qerr error
 			if op.Kind == "racequery" {
@@ -898,6 +971,7 @@ func genTeQuery(t *rapid.T) *teQuery {
 			q.Traces = append(q.Traces, tr)
 		}
 	}
+	q.Tight = rapid.Bool().Draw(t, "tight")
 	if q.Limit < len(q.Traces) {
 		// the engine cuts the list of requested ids to the limit before it looks them up, so an id that is
 		// not stored uses up a slot; the property does not say how a limit applies to an id list
@@ -908,10 +982,12 @@ func genTeQuery(t *rapid.T) *teQuery {
 
 const teRule = "(in a third of the histories additionally a query in flight while a merge is published) 1..5 write batches of 1..15 spans (8 traces, 3 services, unique span ids, one duration 0..50 per trace and service, arbitrary arrival order, spans of a trace " +
 	"spread over batches) through the real trace write callback into a real TSDB (series index, sidx entries of the TREE rule [service_id, duration], " +
-	"span blocks), flush and merges of chosen parts (sidx included) in between; queries through the real planner by trace id (eq / in, limit) or " +
+	"span blocks), flush and merges of chosen parts (sidx included) in between; queries through the real planner by trace id (eq / in, limit; over the whole history or - half of them - over exactly the time span of the requested traces' stored spans) or " +
 	"ordered by the index rule for one service (asc/desc, limit/offset), through the row pipeline or the engine's columnar pipeline"
 
 func teLabels(x *verifkit.Ctx, st teStats) {
+	x.LabelIf(st.tight, "query by id over exactly the time span of the requested traces")
+	x.LabelIf(st.pruned, "time bounds pruned a part that the trace-id filter admits")
 	x.LabelIf(st.allWide, "every trace of a part with several primary-index granules looked up")
 	x.LabelIf(st.raced, "query in flight during a merge publication")
 	x.LabelIf(st.raceBlocked, "publication waited for the query in flight")
@@ -951,6 +1027,14 @@ func TestVerifTraceEngineC13(t *testing.T) {
 	verifkit.Run(t, traceEngineSpec("C13", "trace_engine", "non-trivial = a trace whose spans arrived in >= 2 batches was returned after a flush",
 		func(st teStats) bool { return st.multiPart && st.flushes > 0 },
 		map[string]float64{"returned trace spread over several batches": 0.4, "flush": 0.5, "query by trace id": 0.5}))
+}
+
+// C08 (trace pruning): part selection by time bounds and by the trace-id filter must never discard a part that holds a span of a requested trace.
+func TestVerifTraceEngineC08(t *testing.T) {
+	verifkit.Run(t, traceEngineSpec("C08", "trace_pruning", "the part-level pruning (time bounds, trace-id filter) and the primary-index lookup are what decides which parts a query by id reads; "+
+		"non-trivial = a query by id over exactly the time span of the requested traces after a flush",
+		func(st teStats) bool { return st.tight && st.flushes > 0 },
+		map[string]float64{"query by id over exactly the time span of the requested traces": 0.3, "flush": 0.5}))
 }
 
 func TestVerifTraceEngineC15(t *testing.T) {
